@@ -114,7 +114,8 @@ template <class X> struct ParseMon {
         ExpOff e = expected_offsets(s, m, mabs, msegs);
         auto chk = [&](const char* name, const ObjView::Off& o, long exp, size_t len) {
             if (exp < 0) return;
-            if (o.first == -2) { if (len != 0) c.violation("C03", where + "/range-outside-input/" + name, fmt("input=\"%s\"", esc(s).c_str())); return; }
+            // a non-empty component stored somewhere else than in the input: not "inside the input" (C03), and not the sub-range the grammar assigns (C02)
+            if (o.first == -2) { if (len != 0) { c.violation("C03", where + "/range-outside-input/" + name, fmt("input=\"%s\"", esc(s).c_str())); c.violation("C02", where + "/offset/" + name + "-outside-input", fmt("input=\"%s\"", esc(s).c_str())); } return; }
             if (o.first != exp || o.after != exp + (long)len) c.violation("C02", where + "/offset/" + name, fmt("input=\"%s\" range=[%ld,%ld) expected=[%ld,%ld)", esc(s).c_str(), o.first, o.after, exp, exp + (long)len));
         };
         chk("scheme", v.oScheme, e.scheme, m.scheme.size()); chk("userInfo", v.oUser, e.user, m.user.size()); chk("host", v.oHost, e.host, m.host.size());
